@@ -56,11 +56,25 @@ func init() {
 		if prepare != nil {
 			prepare(cl)
 		}
+		if d := time.Duration(atomic.LoadInt64(&slowLists)); d > 0 {
+			cl.Fault = func(idx, midx int, op, key string) error {
+				if op == "LIST" {
+					time.Sleep(d)
+				}
+				return nil
+			}
+		}
 		lastCli = cl
 		clients = append(clients, cl)
 		return cl
 	}
 }
+
+var slowLists int64
+
+// SlowLists makes every LIST of the clients created from now on take d (0: off), so that
+// concurrent opens overlap inside the storage open.
+func SlowLists(d time.Duration) { atomic.StoreInt64(&slowLists, int64(d)) }
 
 // Bucket registers a fresh store under a unique bucket name.
 func Bucket() (string, *fakes3.Store) {
